@@ -104,4 +104,24 @@ def reopen (geom : Geom) (file : Bytes) : R OnDisk :=
   | .ok _ => .error .structError
 
 end OnDisk
+
+/-! ### path names: `resolve_path(filepath)` = `Path(filepath).expanduser().resolve()` without symlinks
+    or `~`: an absolute path stays, a relative one is joined to the working directory; `.` and `..`
+    are normalised.  A file system is a list of (absolute path, owner handle). -/
+
+abbrev PathC := List String
+
+def normPath : PathC → PathC → PathC
+  | acc, [] => acc.reverse
+  | acc, "." :: rest => normPath acc rest
+  | acc, ".." :: rest => normPath acc.tail rest
+  | acc, c :: rest => normPath (c :: acc) rest
+
+/-- `resolve_path(arg)` evaluated in working directory `cwd` (`isAbs`: `arg` starts with `/`) -/
+def resolvePath (cwd : PathC) (isAbs : Bool) (arg : PathC) : PathC :=
+  if isAbs then normPath [] arg else normPath [] (cwd ++ arg)
+
+/-- the file a path argument designates, if any -/
+def lookupPath (fs : List (PathC × Nat)) (p : PathC) : Option Nat := (fs.find? (·.1 == p)).map (·.2)
+
 end PyProb
